@@ -28,7 +28,7 @@ ASSUMPTIONS = ['fetch margins (fragment_size) are at least the longest simulated
                'per-run molecule identifiers (mi), the per-job index (ix) and the @PG header may differ',
                'worker schedules are sampled (distinct completion orders observed are counted)']
 MIN_NONTRIVIAL = {'quick': 40, 'thorough': 2500}
-REQUIRED_MONITORS = ['run:serial', 'run:restricted_to_one_contig', 'run:contig_per_process', 'run:tiling_pool', 'run:tiling_nopool', 'records:compared', 'jobs:observed',
+REQUIRED_MONITORS = ['run:serial', 'run:restricted_to_one_contig', 'lib:contig_with_placed_unmapped_pairs_only', 'run:contig_per_process', 'run:tiling_pool', 'run:tiling_nopool', 'records:compared', 'jobs:observed',
                      'ownership:records_checked', 'edge:sites_on_bin_edges']
 SHARD_TIMEOUT = {'quick': 900, 'thorough': 7200}
 IGNORE_TAGS = {'mi', 'ix'}
@@ -51,13 +51,23 @@ def run_case(case):
     seg = r.choice([100, 150, 500, 1000, 2500, 20000])    # tiles smaller than a fragment too
     # contig names that contain each other (chr1 / chr10, chr2 / chr21) as real references have
     contigs = [(nm, r.choice([4000, 9000, 21000])) for nm in ['chr1', 'chr10', 'chr2', 'chr21'][:r.randint(1, 4)]]
+    if seg < 500:
+        # hundreds of tiny tiles per contig are slow (one tagging task each): keep the genome small for them
+        contigs = [(nm, min(ln, 4000)) for nm, ln in contigs[:2]]
     max_frag = 300
+    # a short scaffold that will hold nothing but pairs flagged unmapped which keep a coordinate (placed but unmapped)
+    lonely = None
+    if r.random() < 0.4:
+        lonely = ('scaffold_7', r.choice([1500, 6000]))
+        contigs = contigs + [lonely]
     # sites at bin edges of the tiling (-1/0/+1) and elsewhere
     gen = F.Genome(r, contigs)
     recs, truths = [], {}
     rid = 1
     edge_sites = 0
     for name, ln in contigs:
+        if (name, ln) == lonely:
+            continue
         for _ in range(r.randint(2, 7)):
             if r.random() < 0.6:
                 k = r.randint(1, max(1, ln // seg - 1))
@@ -91,6 +101,16 @@ def run_case(case):
                                     mx=F.MX_NLA if method == 'nla' else F.MX_CHIC_TRIMMED))
         truths[rid] = {'id': rid, 'valid': False, 'key': None, 'site': None}
         rid += 1
+    if lonely is not None or r.random() < 0.3:
+        for (name, ln) in ([lonely] if lonely else []) + [contigs[0]]:
+            for _ in range(r.randint(1, 3)):
+                recs.extend(F.unmapped_pair(r, rid, case['i'] + 1, r.randint(1, 3), F.rand_dna(r, 3), mx=F.MX_NLA if method == 'nla' else F.MX_CHIC_TRIMMED,
+                                            place=(gen.tid(name), r.randrange(0, ln - 40))))
+                truths[rid] = {'id': rid, 'valid': False, 'key': None, 'site': None}
+                rid += 1
+        acc.count('lib:placed_unmapped_pairs')
+        if lonely:
+            acc.count('lib:contig_with_placed_unmapped_pairs_only')
     if not recs:
         return acc
     acc.count('edge:sites_on_bin_edges', edge_sites)
